@@ -24,8 +24,28 @@ fn profile() -> Profile {
 }
 
 /// request pool: explorers and the indexer
-fn requests(w: &World, rng: &mut Rng, k: usize) -> Vec<Value> {
+fn requests(w: &mut World, rng: &mut Rng, k: usize) -> Vec<Value> {
     let h = w.height.unwrap_or(0);
+    // signed transactions of signer 0 relative to its real nonce: the next one and its successor
+    let s0 = crate::world::addr_str(&crate::world::signer(0).address());
+    let n0 = match w.inst.call("eth_getTransactionCount", json!([s0, "latest"])) {
+        Resp::Ok(v) => crate::world::hex_u64(&v).unwrap_or(0),
+        _ => 0,
+    };
+    let raw_next = crate::world::hex0x(&w.sign_tx(0, n0, Some(crate::world::parse_addr(DEAD)), vec![1], true));
+    let raw_ahead = crate::world::hex0x(&w.sign_tx(0, n0 + 1, Some(crate::world::parse_addr(DEAD)), vec![2], true));
+    // one round in three: the successor is parked first (sequentially), so that a concurrent gap-filling
+    // brc20_transact walks the pending-transaction loop while explorers queue for the write lock
+    let parked = rng.chance(1, 3);
+    if parked {
+        let ts = 1_900_000_000u64;
+        let _ = w.inst.call("brc20_transact", json!([raw_ahead, null, ts, ZERO_HASH, 0, "c11-parked", 2000, ZERO_HASH]));
+        let _ = w.inst.call("brc20_finaliseBlock", json!([ts, ZERO_HASH, 0]));
+        if rng.chance(1, 2) {
+            let _ = w.inst.call("brc20_commitToDatabase", json!([]));
+        }
+        w.stats.bump("probe_round_with_parked_successor");
+    }
     let hx = format!("0x{:x}", h);
     let bh = w.chain.last().map(|b| b.hash.clone()).unwrap_or_else(|| ZERO_HASH.to_string());
     let th = w.uni.tx_hashes.iter().next().cloned().unwrap_or_else(|| ZERO_HASH.to_string());
@@ -69,16 +89,44 @@ fn requests(w: &World, rng: &mut Rng, k: usize) -> Vec<Value> {
         ("brc20_reorg", json!([h.saturating_sub(1)])),
         ("brc20_reorg", json!([h])),
         ("brc20_transact", json!(["0xc0", null, ts, ZERO_HASH, 0, "c11-tx", 2000, ZERO_HASH])),
+        ("brc20_transact", json!([raw_next, null, ts, ZERO_HASH, 0, "c11-tx-next", 2000, ZERO_HASH])),
+        ("brc20_transact", json!([raw_ahead, null, ts, ZERO_HASH, 0, "c11-tx-ahead", 2000, ZERO_HASH])),
     ];
+    let gap_filler = writers[writers.len() - 2].clone();
     let mut out = vec![];
     // at least one writer in most scenarios, several readers, sometimes two writers (misbehaving indexer)
     for i in 0..k {
         // thread 0 is usually an indexer call, thread 1 often one too (clearCaches / commit / reorg racing with a
         // transaction call is part of the statement), the rest mostly explorers
+        if parked && i == 0 {
+            out.push(json!({"jsonrpc": "2.0", "id": 1, "method": gap_filler.0, "params": gap_filler.1}));
+            continue;
+        }
         let (m, p) = if (i == 0 && rng.chance(5, 6)) || (i == 1 && rng.chance(1, 2)) || rng.chance(1, 5) { rng.pick(&writers).clone() } else { rng.pick(&readers).clone() };
         out.push(json!({"jsonrpc": "2.0", "id": i + 1, "method": m, "params": p}));
     }
     out
+}
+
+/// liveness afterwards (uncontrolled): the write path still works; bookkeeping follows what the probe did
+fn after_round(w: &mut World, round: u64, req_names: &[String], choices: &[usize]) -> Option<Violation> {
+    for (m, p) in [("brc20_clearCaches", json!([])), ("eth_blockNumber", json!([])), ("brc20_mine", json!([1, 1_950_000_000u64 + round]))] {
+        let r = w.inst.call(m, p);
+        if !r.is_ok() {
+            return Some(Violation::new(format!("not-live-after-concurrency/{m}"), json!({"round": round, "requests": req_names, "resp": r.to_value(), "schedule": choices})));
+        }
+    }
+    w.open = None;
+    if let Resp::Ok(v) = w.inst.call("eth_blockNumber", json!([])) {
+        w.height = crate::world::hex_u64(&v);
+    }
+    let hh = w.height.unwrap_or(0);
+    if let Resp::Ok(b) = w.inst.call("eth_getBlockByNumber", json!([format!("0x{:x}", hh), false])) {
+        if let Some(hs) = b["hash"].as_str() {
+            w.chain.push(crate::world::BlockRec { height: hh, hash: hs.to_string(), ts: 0, calls: vec![], receipts: vec![], txs: vec![] });
+        }
+    }
+    None
 }
 
 impl Prop for C11 {
@@ -127,7 +175,7 @@ impl Prop for C11 {
         c
     }
     fn rule(&self) -> String {
-        "case = seeded preparation history, then a set of 2-4 concurrent requests (explorer reads incl. eth_getBlockByHash / debug_getRaw*(hash) / eth_call / eth_getLogs / txpool_*, and indexer writes deposit / call / deploy / finalise / mine / commit / clearCaches / reorg / transact) executed by real threads on the shared engine. Every SharedData acquire and release (engine database lock, block-under-construction lock, CONFIG) is a scheduling point at which exactly one thread is released, chosen by the seed (6 request sets with one seeded schedule each per run, alternating between a uniform choice at every event and PCT-style random priorities with 1-3 priority change points); the admission rule is std's writer-preferring RwLock (reader admitted iff no writer holds and none is queued; writer iff nobody holds), and the real try_read/try_write must then succeed. Violation = a state in which no thread is admissible although not all have finished (reported with the wait-for description and the schedule that reaches it), a request that never completes, or a failed liveness probe afterwards. distinct = sha256 of (ops, request set); states = distinct schedules (hash of the decision sequence); non-trivial = at least one writer and one reader were interleaved (>= 6 scheduling decisions)".into()
+        "case = seeded preparation history, then a set of 2-4 concurrent requests (explorer reads incl. eth_getBlockByHash / debug_getRaw*(hash) / eth_call / eth_getLogs / txpool_*, and indexer writes deposit / call / deploy / finalise / mine / commit / clearCaches / reorg / transact with undecodable, next-nonce and future-nonce signed transactions; in one round of three a successor nonce is parked beforehand so that the concurrent next-nonce transaction drains the pending pool) executed by real threads on the shared engine. Every SharedData acquire and release (engine database lock, block-under-construction lock, CONFIG) is a scheduling point at which exactly one thread is released, chosen by the seed (6 request sets with one seeded schedule each per run, alternating between a uniform choice at every event and PCT-style random priorities with 1-3 priority change points); the admission rule is std's writer-preferring RwLock (reader admitted iff no writer holds and none is queued; writer iff nobody holds), and the real try_read/try_write must then succeed. Violation = a state in which no thread is admissible although not all have finished (reported with the wait-for description and the schedule that reaches it), a request that never completes, or a failed liveness probe afterwards. distinct = sha256 of (ops, request set); states = distinct schedules (hash of the decision sequence); non-trivial = at least one writer and one reader were interleaved (>= 6 scheduling decisions)".into()
     }
     fn assumptions(&self) -> Vec<String> {
         vec![
@@ -162,9 +210,11 @@ impl Prop for C11 {
         let mut req_digest = String::new();
         if violation.is_none() {
             for round in 0..rounds {
-                let reqs = requests(&w, &mut rrng, k);
+                let reqs = requests(&mut w, &mut rrng, k);
                 req_digest.push_str(&serde_json::to_string(&reqs).unwrap_or_default());
                 if only_round.map_or(false, |r| r != round) {
+                    // a replay pinned to one round: the other rounds keep their sequential parts only
+                    let _ = after_round(&mut w, round, &[], &[]);
                     continue;
                 }
                 let Some(methods) = w.inst.methods_clone() else { break };
@@ -256,27 +306,9 @@ impl Prop for C11 {
                 if writers >= 1 && writers < req_names.len() && steps >= 6 {
                     nontrivial = true;
                 }
-                // liveness afterwards (uncontrolled): the write path still works
-                for (m, p) in [("brc20_clearCaches", json!([])), ("eth_blockNumber", json!([])), ("brc20_mine", json!([1, 1_950_000_000u64 + round]))] {
-                    let r = w.inst.call(m, p);
-                    if !r.is_ok() {
-                        violation = Some(Violation::new(format!("not-live-after-concurrency/{m}"), json!({"round": round, "requests": req_names, "resp": r.to_value(), "schedule": choices})));
-                        break;
-                    }
-                }
-                if violation.is_some() {
+                if let Some(v) = after_round(&mut w, round, &req_names, &choices) {
+                    violation = Some(v);
                     break;
-                }
-                // bookkeeping follows what the probe did
-                w.open = None;
-                if let Resp::Ok(v) = w.inst.call("eth_blockNumber", json!([])) {
-                    w.height = crate::world::hex_u64(&v);
-                }
-                let hh = w.height.unwrap_or(0);
-                if let Resp::Ok(b) = w.inst.call("eth_getBlockByNumber", json!([format!("0x{:x}", hh), false])) {
-                    if let Some(hs) = b["hash"].as_str() {
-                        w.chain.push(crate::world::BlockRec { height: hh, hash: hs.to_string(), ts: 0, calls: vec![], receipts: vec![], txs: vec![] });
-                    }
                 }
             }
         }
